@@ -488,9 +488,11 @@ class TemplateASTTransformer(ASTTransformer):
             names.add(node.id)
         elif isinstance(node, _ast.alias):
             names.add(node.asname or node.name)
-        elif isinstance(node, _ast.Tuple):
+        elif isinstance(node, (_ast.Tuple, _ast.List)):
             for elt in node.elts:
                 self._process(names, elt)
+        elif isinstance(node, _ast.Starred):
+            self._process(names, node.value)
 
     def _extract_names(self, node):
         names = set()
@@ -572,9 +574,13 @@ class TemplateASTTransformer(ASTTransformer):
         for generator in node.generators:
             # comprehension = (expr target, expr iter, expr* ifs)
             if not gens:
-                # the outermost iterable is evaluated in the enclosing scope
+                # the outermost iterable is evaluated in the enclosing scope;
+                # the loop variables of all clauses are local to the rest
                 iter_ = self.visit(generator.iter)
-            self.locals.append(set())
+                names = set()
+                for gen in node.generators:
+                    self._process(names, gen.target)
+                self.locals.append(names)
             target = self.visit(generator.target)
             if gens:
                 iter_ = self.visit(generator.iter)
@@ -586,7 +592,7 @@ class TemplateASTTransformer(ASTTransformer):
         # use node.__class__ to make it reusable as ListComp
         ret = _new(node.__class__, self.visit(node.elt), gens)
         #delete inserted locals
-        del self.locals[-len(node.generators):]
+        self.locals.pop()
         return ret
 
     # ListComp(expr elt, comprehension* generators)
